@@ -86,8 +86,9 @@ def bisectSteps (f : Int → Int) (b e : Int) : Nat := bisectStepsFuel (e - b).n
 structure Lst where
   /-- `listener(orb)` as a function of the date of `orb` -/
   f : Int → Int
-  /-- the part of an overridden `check` that is evaluated before `super().check(orb)`, at the current sample -/
-  guard : Int → Bool
+  /-- the part of an overridden `check` that is evaluated before `super().check(orb)`, as a function of the date
+  of `listener.prev` (read by `AnomalyListener` only) and of the date of the current sample -/
+  guard : Int → Int → Bool
   /-- `listener.info(end).info` as a function of the date of `listener.prev` and of the date of `end` -/
   label : Int → Int → String
 
@@ -103,14 +104,14 @@ deriving DecidableEq, Repr
 def check (l : Lst) (p : Option Int) (t : Int) : Bool :=
   match p with
   | none => false
-  | some b => l.guard t && (Int.sign (l.f t) != Int.sign (l.f b))
+  | some b => l.guard b t && (Int.sign (l.f t) != Int.sign (l.f b))
 
 /-- body of the `for listener in listeners` loop of `Speaker.listen` for one listener -/
 def fire (l : Lst) (i : Nat) (p : Option Int) (t : Int) : Option Ev :=
   match p with
   | none => none
   | some b =>
-    if l.guard t && (Int.sign (l.f t) != Int.sign (l.f b)) then
+    if l.guard b t && (Int.sign (l.f t) != Int.sign (l.f b)) then
       some ⟨bisect l.f b t, i, l.label b (bisect l.f b t)⟩
     else none
 
@@ -146,6 +147,22 @@ def sortEv : List Ev → List Ev
   | [] => []
   | x :: xs => ins x (sortEv xs)
 
+def insDesc (x : Ev) : List Ev → List Ev
+  | [] => [x]
+  | y :: ys => if y.t ≤ x.t then x :: y :: ys else y :: insDesc x ys
+
+/-- `sorted(results, key=lambda x: x.date, reverse=True)` — stable as well (equal dates keep their order) -/
+def sortEvDesc : List Ev → List Ev
+  | [] => []
+  | x :: xs => insDesc x (sortEvDesc xs)
+
+/-- `sorted(results, key=…, reverse=backward)` -/
+def sortDir (backward : Bool) (evs : List Ev) : List Ev := if backward then sortEvDesc evs else sortEv evs
+
+/-- the `backward` flag of `Speaker.listen`: some listener's `prev` is later than the current sample -/
+def isBackward (st : List (Option Int)) (t : Int) : Bool :=
+  st.any (fun p => match p with | some q => decide (t < q) | none => false)
+
 /-- one element of the output stream: its date and, when its `event` attribute is set, the listener index and label -/
 structure Item where
   t : Int
@@ -155,7 +172,7 @@ deriving DecidableEq, Repr
 /-- what `iter` yields for one sample `t`: `for listen_orb in self.listen(orb, listeners): yield listen_orb` then `yield orb` -/
 def listen (ls : List Lst) (st : List (Option Int)) (t : Int) : List Item :=
   let r := applyAlias t (rawEvents ls st 0 t)
-  (sortEv r.1).map (fun e => ⟨e.t, some (e.idx, e.label)⟩) ++ [⟨t, r.2⟩]
+  (sortDir (isBackward st t) r.1).map (fun e => ⟨e.t, some (e.idx, e.label)⟩) ++ [⟨t, r.2⟩]
 
 /-- the `for orb in self._iter(...)` loop; after each sample every `listener.prev` is that sample -/
 def go (ls : List Lst) : List (Option Int) → List Int → List Item
@@ -179,9 +196,13 @@ def rawEventsU : List Lst → Nat → Option Int → Int → List Ev
     | none => rawEventsU ls (i + 1) p t
   | [], _, _, _ => []
 
+/-- the `backward` flag when every listener has the same `prev` -/
+def backwardU (p : Option Int) (t : Int) : Bool :=
+  match p with | some q => decide (t < q) | none => false
+
 def listenU (ls : List Lst) (p : Option Int) (t : Int) : List Item :=
   let r := applyAlias t (rawEventsU ls 0 p t)
-  (sortEv r.1).map (fun e => ⟨e.t, some (e.idx, e.label)⟩) ++ [⟨t, r.2⟩]
+  (sortDir (backwardU p t) r.1).map (fun e => ⟨e.t, some (e.idx, e.label)⟩) ++ [⟨t, r.2⟩]
 
 def goU (ls : List Lst) : Option Int → List Int → List Item
   | _, [] => []
